@@ -37,7 +37,16 @@ func TestMain(m *testing.M) {
 
 // ---- key material: pair k has certificate serial k ---------------------------------------------------
 
-type pair struct{ cert, key []byte }
+// The certificate file of pair k is a bundle: leaf (serial k+1) followed by the intermediate that issued it
+// (serial 9001). altCert is the same leaf bundled with a re-issued intermediate (same subject and key, serial
+// 9002); renewed is a new leaf (serial 1001+k) over the SAME private key.
+type pair struct {
+	cert, key    []byte
+	leaf         []byte // the leaf's PEM block alone
+	altCert      []byte
+	renewedCert  []byte
+	renewedShort []byte // (unused placeholder for symmetry)
+}
 
 var (
 	pairsOnce sync.Once
@@ -46,21 +55,47 @@ var (
 
 const nPairs = 40
 
+const (
+	interSerial    = 9001
+	altInterSerial = 9002
+)
+
 func getPairs() []pair {
 	pairsOnce.Do(func() {
+		caKey, err := ecdsa.GenerateKey(elliptic.P256(), rand.Reader)
+		if err != nil {
+			panic(err)
+		}
+		mkInter := func(serial int64) (*x509.Certificate, []byte) {
+			tmpl := &x509.Certificate{SerialNumber: big.NewInt(serial), Subject: pkix.Name{CommonName: "verif intermediate"}, NotBefore: time.Now().Add(-time.Hour), NotAfter: time.Now().Add(48 * time.Hour),
+				IsCA: true, BasicConstraintsValid: true, KeyUsage: x509.KeyUsageCertSign}
+			der, err := x509.CreateCertificate(rand.Reader, tmpl, tmpl, &caKey.PublicKey, caKey)
+			if err != nil {
+				panic(err)
+			}
+			c, _ := x509.ParseCertificate(der)
+			return c, pem.EncodeToMemory(&pem.Block{Type: "CERTIFICATE", Bytes: der})
+		}
+		inter, interPEM := mkInter(interSerial)
+		_, altPEM := mkInter(altInterSerial)
 		for k := 0; k < nPairs; k++ {
 			priv, err := ecdsa.GenerateKey(elliptic.P256(), rand.Reader)
 			if err != nil {
 				panic(err)
 			}
-			tmpl := &x509.Certificate{SerialNumber: big.NewInt(int64(k + 1)), Subject: pkix.Name{CommonName: fmt.Sprintf("pair-%d", k)},
-				NotBefore: time.Now().Add(-time.Hour), NotAfter: time.Now().Add(24 * time.Hour), KeyUsage: x509.KeyUsageDigitalSignature, DNSNames: []string{"verif.test"}}
-			der, err := x509.CreateCertificate(rand.Reader, tmpl, tmpl, &priv.PublicKey, priv)
-			if err != nil {
-				panic(err)
+			mkLeaf := func(serial int64) []byte {
+				tmpl := &x509.Certificate{SerialNumber: big.NewInt(serial), Subject: pkix.Name{CommonName: fmt.Sprintf("pair-%d", k)},
+					NotBefore: time.Now().Add(-time.Hour), NotAfter: time.Now().Add(24 * time.Hour), KeyUsage: x509.KeyUsageDigitalSignature, DNSNames: []string{"verif.test"}}
+				der, err := x509.CreateCertificate(rand.Reader, tmpl, inter, &priv.PublicKey, caKey)
+				if err != nil {
+					panic(err)
+				}
+				return pem.EncodeToMemory(&pem.Block{Type: "CERTIFICATE", Bytes: der})
 			}
+			leaf := mkLeaf(int64(k + 1))
 			kb, _ := x509.MarshalECPrivateKey(priv)
-			pairs = append(pairs, pair{cert: pem.EncodeToMemory(&pem.Block{Type: "CERTIFICATE", Bytes: der}), key: pem.EncodeToMemory(&pem.Block{Type: "EC PRIVATE KEY", Bytes: kb})})
+			pairs = append(pairs, pair{cert: append(append([]byte{}, leaf...), interPEM...), leaf: leaf, altCert: append(append([]byte{}, leaf...), altPEM...),
+				renewedCert: append(mkLeaf(int64(1001+k)), interPEM...), key: pem.EncodeToMemory(&pem.Block{Type: "EC PRIVATE KEY", Bytes: kb})})
 		}
 	})
 	return pairs
@@ -82,7 +117,13 @@ type Script struct {
 	Settle struct {
 		Style string `json:"style"` // inplace-cert-first, inplace-key-first, rename-cert-first, rename-key-first, swap
 		Pair  int    `json:"pair"`
+		// Blockwise: the certificate bundle is written block by block (the file holds the new leaf alone for a moment)
+		Blockwise bool `json:"blockwise,omitempty"`
 	} `json:"settle"`
+	// Then: a further update after the settled pair has been picked up, touching the certificate file only:
+	// "" (none), "alt-chain" (same leaf and key, re-issued intermediate), "renewal" (new leaf over the same key)
+	Then      string `json:"then,omitempty"`
+	ThenStyle string `json:"then_style,omitempty"` // inplace, rename
 }
 
 var col = vstat.New("C14", "c14.reload")
@@ -142,6 +183,11 @@ func gen(t *rapid.T) Script {
 		s.Settle.Style = rapid.SampledFrom([]string{"inplace-cert-first", "inplace-key-first", "rename-cert-first", "rename-key-first"}).Draw(t, "settle")
 	}
 	s.Settle.Pair = next + 1
+	if s.Layout != "k8s" {
+		s.Settle.Blockwise = (s.Settle.Style == "inplace-key-first") && rapid.Bool().Draw(t, "blockwise")
+		s.Then = rapid.SampledFrom([]string{"", "", "alt-chain", "renewal"}).Draw(t, "then")
+		s.ThenStyle = rapid.SampledFrom([]string{"inplace", "rename"}).Draw(t, "thenStyle")
+	}
 	return s
 }
 
@@ -154,6 +200,7 @@ type world struct {
 	gen               int // k8s: generation counter of the timestamped directory
 	// for the safety oracle: which pair numbers have had their certificate / key completely on disk
 	certSeen, keySeen map[int]bool
+	extraLeaf         map[int64]bool // leaf serials of renewed certificates that have been on disk with their key
 	mu                sync.Mutex
 }
 
@@ -171,7 +218,7 @@ func (w *world) allowed(serial int64) bool {
 	k := int(serial) - 1
 	w.mu.Lock()
 	defer w.mu.Unlock()
-	return w.certSeen[k] && w.keySeen[k]
+	return w.certSeen[k] && w.keySeen[k] || w.extraLeaf[serial]
 }
 
 func content(file, kind string, k int) []byte {
@@ -288,7 +335,7 @@ func exec(s Script) (v *vstat.Violation, classes []string) {
 		return nil, []string{"discard:mkdir"}
 	}
 	defer os.RemoveAll(dir)
-	w := &world{dir: dir, layout: s.Layout, certSeen: map[int]bool{0: true}, keySeen: map[int]bool{0: true}}
+	w := &world{dir: dir, layout: s.Layout, certSeen: map[int]bool{0: true}, keySeen: map[int]bool{0: true}, extraLeaf: map[int64]bool{}}
 	if s.Layout == "k8s" {
 		w.certPath, w.keyPath = filepath.Join(dir, "tls.crt"), filepath.Join(dir, "tls.key")
 		if err := w.swap(ps[0].cert, ps[0].key); err != nil {
@@ -317,29 +364,31 @@ func exec(s Script) (v *vstat.Violation, classes []string) {
 	var safety *vstat.Violation
 	handshakes := 0
 	var hwg sync.WaitGroup
-	hwg.Add(1)
-	go func() {
-		defer hwg.Done()
-		for {
-			select {
-			case <-stop:
-				return
-			default:
-			}
-			ser, err := handshakeSerial(cw)
-			hsMu.Lock()
-			handshakes++
-			if safety == nil {
-				if err != nil {
-					safety = vstat.Violf("safety|handshake-failed-during-update", "a handshake failed while the files were being updated: %v", err)
-				} else if !w.allowed(ser) {
-					safety = vstat.Violf("safety|presented-pair-that-never-was-on-disk", "a handshake presented certificate serial %d; certificate and key of that pair have not both been on disk", ser)
+	for h := 0; h < 4; h++ {
+		hwg.Add(1)
+		go func() {
+			defer hwg.Done()
+			for {
+				select {
+				case <-stop:
+					return
+				default:
 				}
+				ser, err := handshakeSerial(cw)
+				hsMu.Lock()
+				handshakes++
+				if safety == nil {
+					if err != nil {
+						safety = vstat.Violf("safety|handshake-failed-during-update", "a handshake failed while the files were being updated: %v", err)
+					} else if !w.allowed(ser) {
+						safety = vstat.Violf("safety|presented-pair-that-never-was-on-disk", "a handshake presented certificate serial %d; certificate and key of that pair have not both been on disk", ser)
+					}
+				}
+				hsMu.Unlock()
+				time.Sleep(100 * time.Microsecond)
 			}
-			hsMu.Unlock()
-			time.Sleep(300 * time.Microsecond)
-		}
-	}()
+		}()
+	}
 
 	removedClass := false
 	styles := map[string]bool{}
@@ -364,7 +413,20 @@ func exec(s Script) (v *vstat.Violation, classes []string) {
 		w.apply(Step{Op: "inplace", File: "key", Content: "full", Pair: k})
 	case "inplace-key-first":
 		w.apply(Step{Op: "inplace", File: "key", Content: "full", Pair: k})
-		w.apply(Step{Op: "inplace", File: "cert", Content: "full", Pair: k})
+		if s.Settle.Blockwise {
+			// the bundle arrives block by block: leaf first, the intermediate a few milliseconds later
+			w.markFull("cert", k)
+			os.WriteFile(w.certPath, ps[k].leaf, 0o644)
+			time.Sleep(20 * time.Millisecond)
+			f, err := os.OpenFile(w.certPath, os.O_WRONLY|os.O_APPEND, 0o644)
+			if err == nil {
+				f.Write(ps[k].cert[len(ps[k].leaf):])
+				f.Close()
+			}
+			classes = append(classes, "bundle-written-block-by-block")
+		} else {
+			w.apply(Step{Op: "inplace", File: "cert", Content: "full", Pair: k})
+		}
 	case "rename-cert-first":
 		w.apply(Step{Op: "rename", File: "cert", Content: "full", Pair: k})
 		w.apply(Step{Op: "rename", File: "key", Content: "full", Pair: k})
@@ -380,15 +442,29 @@ func exec(s Script) (v *vstat.Violation, classes []string) {
 	var last int64
 	var lastErr error
 	deadline := 3 * time.Second
-	for time.Since(settledAt) < deadline {
+	// presented: serials of the chain the watcher hands to crypto/tls right now
+	presented := func() ([]int64, error) {
 		c, err := cw.GetCertificate(nil)
-		if err == nil && c != nil && len(c.Certificate) > 0 {
-			if leaf, e := x509.ParseCertificate(c.Certificate[0]); e == nil {
-				last = leaf.SerialNumber.Int64()
-				if last == int64(k+1) {
-					converged = true
-					break
-				}
+		if err != nil || c == nil {
+			return nil, err
+		}
+		var out []int64
+		for _, der := range c.Certificate {
+			x, e := x509.ParseCertificate(der)
+			if e != nil {
+				return nil, e
+			}
+			out = append(out, x.SerialNumber.Int64())
+		}
+		return out, nil
+	}
+	for time.Since(settledAt) < deadline {
+		ch, err := presented()
+		if err == nil && len(ch) > 0 {
+			last = ch[0]
+			if fmt.Sprint(ch) == fmt.Sprint([]int64{int64(k + 1), interSerial}) {
+				converged = true
+				break
 			}
 		}
 		lastErr = err
@@ -398,12 +474,43 @@ func exec(s Script) (v *vstat.Violation, classes []string) {
 	if !converged {
 		// one re-check after a further pause before declaring a violation
 		time.Sleep(2 * time.Second)
-		if c, err := cw.GetCertificate(nil); err == nil && c != nil && len(c.Certificate) > 0 {
-			if leaf, e := x509.ParseCertificate(c.Certificate[0]); e == nil && leaf.SerialNumber.Int64() == int64(k+1) {
-				converged = true
-				classes = append(classes, "converged-only-after-3s")
-			}
+		if ch, err := presented(); err == nil && fmt.Sprint(ch) == fmt.Sprint([]int64{int64(k + 1), interSerial}) {
+			converged = true
+			classes = append(classes, "converged-only-after-3s")
 		}
+	}
+	// a further update of the certificate file alone
+	var thenViol *vstat.Violation
+	if converged && s.Then != "" {
+		want := []int64{int64(k + 1), altInterSerial}
+		nb := ps[k].altCert
+		if s.Then == "renewal" {
+			want, nb = []int64{int64(1001 + k), interSerial}, ps[k].renewedCert
+		}
+		w.mu.Lock()
+		w.extraLeaf[want[0]] = true
+		w.mu.Unlock()
+		if s.ThenStyle == "rename" {
+			tmp := w.certPath + ".tmp"
+			os.WriteFile(tmp, nb, 0o644)
+			os.Rename(tmp, w.certPath)
+		} else {
+			os.WriteFile(w.certPath, nb, 0o644)
+		}
+		t1 := time.Now()
+		ok := false
+		var got []int64
+		for time.Since(t1) < 5*time.Second {
+			if got, _ = presented(); fmt.Sprint(got) == fmt.Sprint(want) {
+				ok = true
+				break
+			}
+			time.Sleep(2 * time.Millisecond)
+		}
+		if !ok {
+			thenViol = vstat.Violf("flat|no-convergence-after-certificate-only-update", "5 s after the certificate file alone was updated (%s, %s; the key file is unchanged and still matches) the watcher presents chain %v, want %v", s.Then, s.ThenStyle, got, want)
+		}
+		classes = append(classes, "then:"+s.Then)
 	}
 	close(stop)
 	hwg.Wait()
@@ -422,6 +529,13 @@ func exec(s Script) (v *vstat.Violation, classes []string) {
 		sv.Sig = cls + "|" + sv.Sig
 		return sv, classes
 	}
+	if thenViol != nil {
+		if removedClass {
+			// the watch on a file that was removed earlier is gone for good (listed finding): same class, same signature
+			thenViol.Sig = cls + "|no-convergence"
+		}
+		return thenViol, classes
+	}
 	if !converged {
 		// the files on disk must really hold the settled pair (guards against a harness slip)
 		cb, _ := os.ReadFile(w.certPath)
@@ -429,10 +543,13 @@ func exec(s Script) (v *vstat.Violation, classes []string) {
 		if !bytes.Equal(cb, ps[k].cert) || !bytes.Equal(kb, ps[k].key) {
 			return nil, append(classes, "discard:settle-did-not-reach-disk")
 		}
-		return vstat.Violf(cls+"|no-convergence", "5 s after a fresh valid pair (serial %d) was installed (%s) the watcher still serves serial %d (err %v); history: %+v", k+1, s.Settle.Style, last, lastErr, s.Steps), classes
+		ch, _ := presented()
+		return vstat.Violf(cls+"|no-convergence", "5 s after a fresh valid pair (leaf serial %d + intermediate %d) was installed (%s, block by block: %v) the watcher presents chain %v (last leaf seen %d, err %v); history: %+v", k+1, interSerial, s.Settle.Style, s.Settle.Blockwise, ch, last, lastErr, s.Steps), classes
 	}
-	if ser, err := handshakeSerial(cw); err != nil || ser != int64(k+1) {
-		return vstat.Violf(cls+"|handshake-after-convergence", "after convergence a handshake gives serial %d err %v, want %d", ser, err, k+1), classes
+	if s.Then == "" {
+		if ser, err := handshakeSerial(cw); err != nil || ser != int64(k+1) {
+			return vstat.Violf(cls+"|handshake-after-convergence", "after convergence a handshake gives serial %d err %v, want %d", ser, err, k+1), classes
+		}
 	}
 	classes = append(classes, "layout:"+s.Layout, "settle:"+s.Settle.Style, fmt.Sprintf("handshakes-during-history>0:%v", nh > 0))
 	if broken {
@@ -452,7 +569,7 @@ func exec(s Script) (v *vstat.Violation, classes []string) {
 
 func TestReload(t *testing.T) {
 	getPairs()
-	col.Mandatory("layout:flat", "layout:k8s", "settle:swap", "settle:inplace-key-first", "settle:rename-cert-first", "broken-intermediate-state", "two-update-styles")
+	col.Mandatory("layout:flat", "layout:k8s", "settle:swap", "settle:inplace-key-first", "settle:rename-cert-first", "broken-intermediate-state", "two-update-styles", "then:alt-chain", "then:renewal", "bundle-written-block-by-block")
 	vstat.Run(t, vstat.Spec[Script]{Col: col, Quick: 150, Thorough: 4000, Gen: gen,
 		Exec: func(s Script) *vstat.Violation {
 			v, cl := exec(s)
